@@ -27,7 +27,26 @@ BUDGET = {"quick": 300, "thorough": 900}
 RUNS = {"quick": 3000, "thorough": 300000}
 
 
+def big_support_case(rs, tier):
+    """Text-format behaviour that depends on SIZE (line wrapping, chunking of 'c ind' lines, long clauses): one 2- or
+    3-level factor and a MinimumTrials that makes the sampling set 100 to 1 500 variables long, two or three rounds."""
+    brng = W.stream(rs, "big-design")
+    L = brng.choice([2, 2, 3])
+    n = brng.choice([55, 130, 260, 505, 505])
+    A = {"id": "f0", "kind": "basic", "name": "A", "levels": [["v%d" % i, 1] for i in range(L)]}
+    cons = [{"id": "mt", "kind": "mintrials", "n": n}]
+    if brng.random() < 0.5:
+        cons.append({"id": "p0", "kind": "pin", "index": -1, "target": ["f0", "v0"], "spelling": "tuple"})
+    ast = {"factors": [A], "block": {"kind": "cross", "design": ["f0"], "crossing": ["f0"], "constraints": cons, "rcc": True}}
+    knobs = common.draw_knobs(W.stream(rs, "knobs"), transports=("lib", "cli"))
+    knobs["peer"] = "native"       # the walk/lexmin policies cost one solve per variable, the samplers hit their conflict limit
+    return {"design": ast, "knobs": knobs, "strategy": "IterateSATGen", "n": brng.choice([2, 3]),
+            "faults": [], "tier": tier, "sweep": False, "big": True, "timeout": 120}
+
+
 def gen_case(rs, tier):
+    if W.stream(rs, "big").random() < (0.01 if tier == "thorough" else 0.004):
+        return big_support_case(rs, tier)
     rng = W.stream(rs, "design")
     krng = W.stream(rs, "knobs")
     cfg = gen.swarm(krng, tier)
@@ -47,28 +66,37 @@ def gen_case(rs, tier):
 
 
 def strict_dimacs(text):
-    """Returns (errors, header(V,C), clauses, ind_lists)."""
+    """Returns (errors, header(V,C), clauses, ind_lists).  A clause ends at its 0, not at the end of the line (DIMACS allows
+    a clause to continue on the next line), so line breaks inside a clause are not an error; a 0 in the middle of a line, a
+    clause that never ends, or a comment/header line inside a clause are."""
     errors = []
     header = None
     clauses = []
     ind = []
+    cur = []
     lines = text.split("\n")
     for ln, line in enumerate(lines):
         s = line.strip()
         if not s:
             continue
         if s.startswith("c ind"):
+            if cur:
+                errors.append("comment-inside-clause")
             toks = s.split()[2:]
             if not toks or toks[-1] != "0":
                 errors.append("ind-line-not-terminated")
             ind.append([int(x) for x in toks if x != "0"])
             continue
         if s.startswith("c"):
+            if cur:
+                errors.append("comment-inside-clause")
             continue
         if s.startswith("p"):
             parts = s.split()
             if header is not None:
                 errors.append("second-header")
+            if cur:
+                errors.append("header-inside-clause")
             if len(parts) != 4 or parts[1] != "cnf":
                 errors.append("bad-header")
             else:
@@ -80,11 +108,17 @@ def strict_dimacs(text):
         except ValueError:
             errors.append("non-integer-token")
             continue
-        if lits[-1] != 0:
-            errors.append("clause-not-zero-terminated")
         if 0 in lits[:-1]:
-            errors.append("zero-inside-clause")
-        clauses.append([x for x in lits if x != 0])
+            errors.append("zero-inside-line")
+        for x in lits:
+            if x == 0:
+                clauses.append(cur)
+                cur = []
+            else:
+                cur.append(x)
+    if cur:
+        errors.append("clause-not-zero-terminated")
+        clauses.append(cur)
     if header is None:
         errors.append("no-header")
     return errors, header, clauses, ind
@@ -144,7 +178,7 @@ def run_one(case):
         if exc is not None:
             return common.result_base(w, outcome="skip", reason="constructor-refused:" + type(exc).__name__)
         try:
-            with common.time_limit(8):
+            with common.time_limit(8 if not case.get("big") else 100):
                 res, exc = common.synth(w, blk, strat, case["n"])
         except (common.InnerTimeout, W.HarnessCap):
             return common.result_base(w, outcome="skip", reason="cap")
